@@ -108,9 +108,9 @@ Fixpoint dec_op (fuel : nat) (w : world) (ns : nat) (s : sx) : option hop :=
   | _ => None
   end.
 
-(* the Recover of the checked-out /repo: 1 = journal dropped after the revert loop
-   (045cec3993), 2 = before the first revert *)
-Definition C20_recover_mode : N := 1.
+(* the Recover of the checked-out /repo: 2 = journal dropped before the first revert
+   (86d61ccd46); 1 = after the revert loop (045cec3993); 0 = never *)
+Definition C20_recover_mode : N := 2.
 
 Definition class_of (o : outc) : sx := match o with Done _ => SI 0%Z | Fail e _ => sn e end.
 
